@@ -44,88 +44,159 @@ Qed.
 (* ------------------------------------------------------------------ *)
 (* buffered_shuffle                                                     *)
 
-Lemma bshuf_loop_perm {A} (B : Z) : forall (rest : list A) draws buf out out' buf',
-  bshuf_loop B rest draws buf out = Some (out', buf') ->
-  Permutation (out ++ buf ++ rest) (out' ++ buf').
+Lemma set_nth_length {A} : forall (l : list A) k x, length (set_nth k x l) = length l.
+Proof. induction l as [|y l IH]; intros [|k] x; cbn; auto. Qed.
+
+Lemma py_index_lt len k i : py_index len k = Some i -> (i < len)%nat.
 Proof.
-  induction rest as [|i rest IH]; intros draws buf out out' buf' H; cbn [bshuf_loop] in H.
-  - injection H as <- <-. now rewrite app_nil_r.
-  - destruct buf as [|r t]; [discriminate|].
-    apply IH in H. etransitivity; [|exact H]. cbn [set_nth].
-    rewrite <- !app_assoc. apply Permutation_app_head. cbn [app].
-    constructor.
-    transitivity ((i :: t) ++ rest).
-    + cbn [app]. symmetry. apply Permutation_middle.
-    + apply Permutation_app_tail.
-      destruct (hd 0 draws <? B - 1); [apply swap_slots_perm|reflexivity].
+  unfold py_index. destruct (0 <=? k) eqn:E0.
+  - apply Z.leb_le in E0. destruct (k <? Z.of_nat len) eqn:E1; [|discriminate].
+    apply Z.ltb_lt in E1. intros H. injection H as <-. lia.
+  - apply Z.leb_gt in E0. destruct (- Z.of_nat len <=? k) eqn:E1; [|discriminate].
+    apply Z.leb_le in E1. intros H. injection H as <-. lia.
 Qed.
 
-Lemma bshuf_loop_total {A} (B : Z) : forall (rest : list A) draws buf out,
-  buf <> [] -> exists out' buf', bshuf_loop B rest draws buf out = Some (out', buf').
+Lemma py_index_total len k : - Z.of_nat len <= k < Z.of_nat len -> exists i, py_index len k = Some i.
 Proof.
-  induction rest as [|i rest IH]; intros draws buf out Hne; cbn [bshuf_loop]; [eauto|].
-  destruct buf as [|r t]; [contradiction Hne; reflexivity|].
-  apply IH. cbn [set_nth]. intros E.
-  assert (P : Permutation (i :: t)
-               (if hd 0 draws <? B - 1 then swap_slots (Z.to_nat (hd 0 draws)) (i :: t) else i :: t))
-    by (destruct (hd 0 draws <? B - 1); [apply swap_slots_perm|reflexivity]).
-  rewrite E in P. apply Permutation_sym, Permutation_nil in P. discriminate.
+  intros H. unfold py_index. destruct (0 <=? k) eqn:E0.
+  - apply Z.leb_le in E0. assert (k <? Z.of_nat len = true) as -> by (apply Z.ltb_lt; lia). eauto.
+  - apply Z.leb_gt in E0. assert (- Z.of_nat len <=? k = true) as -> by (apply Z.leb_le; lia). eauto.
 Qed.
 
-(* yields before the end: one per item beyond the first buffer *)
-Lemma bshuf_loop_length {A} (B : Z) : forall (rest : list A) draws buf out out' buf',
-  bshuf_loop B rest draws buf out = Some (out', buf') ->
+Lemma py_get_0 {A} (x : A) t : py_get (x :: t) 0 = Some x.
+Proof. reflexivity. Qed.
+Lemma py_set_0 {A} (x y : A) t : py_set (x :: t) 0 y = Some (y :: t).
+Proof. reflexivity. Qed.
+Lemma py_get_nil {A} k : py_get (@nil A) k = None.
+Proof. unfold py_get. cbn [length]. destruct (py_index 0 k) as [i|] eqn:E; [|reflexivity]. apply py_index_lt in E. lia. Qed.
+
+(* one iteration: what it does when it does not raise *)
+Lemma bstep_spec {A} (B : Z) (buf : list A) draws out i buf' draws' out' :
+  bstep B (buf, draws, out) i = Some (buf', draws', out') ->
+  exists r t, buf = r :: t /\ out' = out ++ [r] /\ draws' = tl draws /\
+    Permutation (i :: t) buf' /\ length buf' = length buf.
+Proof.
+  unfold bstep. destruct buf as [|r t]; [rewrite py_get_nil; discriminate|].
+  rewrite py_get_0, py_set_0. cbv zeta.
+  destruct (hd 0 draws <? B - 1).
+  - rewrite py_get_0. unfold py_get at 1.
+    destruct (py_index (length (i :: t)) (hd 0 draws)) as [j|] eqn:Ej; [|discriminate].
+    destruct (nth_error (i :: t) j) as [x|] eqn:Ex; [|discriminate].
+    unfold py_set at 1. rewrite Ej. unfold py_set. rewrite set_nth_length. cbn [length py_index].
+    change (py_index (S (length t)) 0) with (Some 0%nat).
+    intros H. injection H as <- <- <-. exists r, t. repeat split.
+    + change (Permutation (i :: t) (set_nth 0 x (set_nth j i (i :: t)))).
+      assert (E : set_nth 0 x (set_nth j i (i :: t)) = swap_slots j (i :: t)).
+      { unfold swap_slots. rewrite Ex. reflexivity. }
+      rewrite E. apply swap_slots_perm.
+    + change (length (set_nth 0 x (set_nth j i (i :: t))) = length (r :: t)).
+      rewrite !set_nth_length. reflexivity.
+  - intros H. injection H as <- <- <-. exists r, t. repeat split; reflexivity.
+Qed.
+
+Lemma bstep_total {A} (B : Z) (buf : list A) draws out i :
+  buf <> [] -> (hd 0 draws < B - 1 -> - Z.of_nat (length buf) <= hd 0 draws < Z.of_nat (length buf)) ->
+  exists st', bstep B (buf, draws, out) i = Some st'.
+Proof.
+  intros Hne Hd. unfold bstep. destruct buf as [|r t]; [contradiction Hne; reflexivity|].
+  rewrite py_get_0, py_set_0. cbv zeta.
+  destruct (hd 0 draws <? B - 1) eqn:E; [|eauto].
+  apply Z.ltb_lt in E. specialize (Hd E). rewrite py_get_0.
+  destruct (py_index_total (length (i :: t)) (hd 0 draws)) as (j & Ej); [cbn [length] in *; lia|].
+  unfold py_get at 1. rewrite Ej.
+  assert (Hj : (j < length (i :: t))%nat) by (eapply py_index_lt; exact Ej).
+  destruct (nth_error (i :: t) j) as [x|] eqn:Ex; [|apply nth_error_None in Ex; lia].
+  unfold py_set at 1. rewrite Ej. unfold py_set. rewrite set_nth_length. cbn [length py_index].
+  change (py_index (S (length t)) 0) with (Some 0%nat). eauto.
+Qed.
+
+Lemma bshuf_fold_perm {A} (B : Z) : forall (rest : list A) buf draws out buf' draws' out',
+  bshuf_fold B rest (buf, draws, out) = Some (buf', draws', out') ->
+  Permutation (out ++ buf ++ rest) (out' ++ buf') /\
   length out' = (length out + length rest)%nat /\ length buf' = length buf.
 Proof.
-  induction rest as [|i rest IH]; intros draws buf out out' buf' H; cbn [bshuf_loop] in H.
-  - injection H as <- <-. cbn. lia.
-  - destruct buf as [|r t]; [discriminate|]. apply IH in H. destruct H as [H1 H2].
-    rewrite app_length in H1. cbn [length] in H1. split; [cbn [length]; lia|].
-    rewrite H2. cbn [set_nth].
-    destruct (hd 0 draws <? B - 1); [|reflexivity].
-    rewrite <- (Permutation_length (swap_slots_perm _ (i :: t))). reflexivity.
+  induction rest as [|i rest IH]; intros buf draws out buf' draws' out' H; cbn [bshuf_fold] in H.
+  - injection H as <- <- <-. rewrite app_nil_r. cbn. auto with arith.
+  - destruct (bstep B (buf, draws, out) i) as [[[b1 d1] o1]|] eqn:E; [|discriminate].
+    apply bstep_spec in E. destruct E as (r & t & -> & -> & -> & P & L).
+    apply IH in H. destruct H as (H1 & H2 & H3). split; [|split].
+    + etransitivity; [|exact H1]. rewrite <- !app_assoc. apply Permutation_app_head. cbn [app].
+      constructor. transitivity ((i :: t) ++ rest).
+      * cbn [app]. symmetry. apply Permutation_middle.
+      * apply Permutation_app_tail. exact P.
+    + rewrite H2, app_length. cbn [length]. lia.
+    + rewrite H3. exact L.
 Qed.
 
-Lemma buffered_shuffle_perm {A} (B : Z) code draws (src : list A) : 1 <= B ->
+(* draws that can be used as python indices into a buffer of B slots: -B <= d.  NumPy's
+   contract (0 <= d < B) is a special case; d >= B - 1 is never used as an index. *)
+Definition draws_ok (B : Z) (draws : list Z) : Prop := Forall (fun d => - B <= d) draws.
+
+Lemma draws_ok_hd B draws : 1 <= B -> draws_ok B draws -> - B <= hd 0 draws.
+Proof. intros HB H. destruct H; cbn; lia. Qed.
+Lemma draws_ok_tl B draws : draws_ok B draws -> draws_ok B (tl draws).
+Proof. intros H. destruct H; cbn; [constructor|assumption]. Qed.
+
+Lemma bshuf_fold_total {A} (B : Z) : 1 <= B -> forall (rest : list A) buf draws out,
+  length buf = Z.to_nat B -> draws_ok B draws ->
+  exists st', bshuf_fold B rest (buf, draws, out) = Some st'.
+Proof.
+  intros HB. induction rest as [|i rest IH]; intros buf draws out Hl Hd; cbn [bshuf_fold]; [eauto|].
+  destruct (bstep_total B buf draws out i) as ([[b1 d1] o1] & E).
+  { intros ->. cbn in Hl. lia. }
+  { intros Hlt. pose proof (draws_ok_hd B draws HB Hd). lia. }
+  rewrite E. pose proof (bstep_spec B buf draws out i b1 d1 o1 E) as (r & t & _ & _ & -> & _ & L).
+  apply IH; [now rewrite L|now apply draws_ok_tl].
+Qed.
+
+(* whenever buffered_shuffle returns, its output is a permutation of its input: EVERY oracle *)
+Lemma buffered_shuffle_sound {A} (B : Z) code draws (src : list A) out :
+  buffered_shuffle B code draws src false = SOk out -> Permutation src out.
+Proof.
+  unfold buffered_shuffle, bshuf_loop. cbn [andb]. set (n := Z.to_nat B).
+  destruct (bshuf_fold B (skipn n src) (apply_code code (firstn n src), draws, [])) as [[[b d] o]|] eqn:E;
+    [|discriminate].
+  intros H. injection H as <-. apply bshuf_fold_perm in E. destruct E as [E _]. cbn [app] in E.
+  etransitivity; [|exact E]. rewrite <- (firstn_skipn n src) at 1.
+  apply Permutation_app_tail. apply apply_code_perm.
+Qed.
+
+(* it returns for every buffer size >= 1 and every oracle whose draws are usable indices *)
+Lemma buffered_shuffle_total {A} (B : Z) code draws (src : list A) : 1 <= B -> draws_ok B draws ->
+  exists out, buffered_shuffle B code draws src false = SOk out.
+Proof.
+  intros HB Hd. unfold buffered_shuffle, bshuf_loop. cbn [andb]. set (n := Z.to_nat B).
+  destruct (skipn n src) as [|i rest] eqn:Es.
+  - cbn [bshuf_fold]. eauto.
+  - assert (Hl : length (apply_code code (firstn n src)) = n).
+    { rewrite <- (Permutation_length (apply_code_perm code (firstn n src))), firstn_length.
+      assert (Hs : length (skipn n src) = S (length rest)) by (rewrite Es; reflexivity).
+      rewrite skipn_length in Hs. lia. }
+    destruct (bshuf_fold_total B HB (i :: rest) _ draws [] Hl Hd) as ([[b d] o] & ->). eauto.
+Qed.
+
+Lemma buffered_shuffle_perm {A} (B : Z) code draws (src : list A) : 1 <= B -> draws_ok B draws ->
   exists out, buffered_shuffle B code draws src false = SOk out /\ Permutation src out.
 Proof.
-  intros HB. unfold buffered_shuffle. cbn [andb].
-  set (n := Z.to_nat B).
-  destruct (skipn n src) as [|i rest] eqn:Es.
-  - cbn [bshuf_loop app]. eexists; split; [reflexivity|].
-    rewrite <- (firstn_skipn n src) at 1. rewrite Es, app_nil_r. apply apply_code_perm.
-  - assert (Hne : apply_code code (firstn n src) <> []).
-    { intros E. pose proof (apply_code_perm code (firstn n src)) as P. rewrite E in P.
-      apply Permutation_sym, Permutation_nil in P.
-      assert (Hl : length (skipn n src) = S (length rest)) by (rewrite Es; reflexivity).
-      rewrite skipn_length in Hl.
-      assert (Hf : length (firstn n src) = 0%nat) by (rewrite P; reflexivity).
-      rewrite firstn_length in Hf. subst n. lia. }
-    destruct (bshuf_loop_total B (i :: rest) draws _ [] Hne) as (out' & buf' & E).
-    rewrite E. eexists; split; [reflexivity|].
-    apply bshuf_loop_perm in E. cbn [app] in E. etransitivity; [|exact E].
-    rewrite <- (firstn_skipn n src) at 1. rewrite Es. apply Permutation_app_tail. apply apply_code_perm.
+  intros HB Hd. destruct (buffered_shuffle_total B code draws src HB Hd) as (out & E).
+  exists out. split; [exact E|]. eapply buffered_shuffle_sound; exact E.
 Qed.
 
 (* source that raises: either nothing was yielded (raised while filling the buffer) or
-   exactly the items beyond the first buffer were replaced by earlier ones *)
-Lemma buffered_shuffle_err {A} (B : Z) code draws (src : list A) : 1 <= B ->
+   one item per item beyond the first buffer *)
+Lemma buffered_shuffle_err {A} (B : Z) code draws (src : list A) : 1 <= B -> draws_ok B draws ->
   exists out, buffered_shuffle B code draws src true = SErr out /\
               length out = (length src - Z.to_nat B)%nat.
 Proof.
-  intros HB. unfold buffered_shuffle. cbn [andb].
-  set (n := Z.to_nat B).
+  intros HB Hd. unfold buffered_shuffle, bshuf_loop. cbn [andb]. set (n := Z.to_nat B).
   destruct (length src <? n)%nat eqn:El.
   - apply Nat.ltb_lt in El. eexists; split; [reflexivity|]. cbn. lia.
   - apply Nat.ltb_ge in El.
-    assert (Hne : apply_code code (firstn n src) <> []).
-    { intros E. pose proof (apply_code_perm code (firstn n src)) as P. rewrite E in P.
-      apply Permutation_sym, Permutation_nil in P.
-      assert (Hf : length (firstn n src) = 0%nat) by (rewrite P; reflexivity).
-      rewrite firstn_length in Hf. subst n. lia. }
-    destruct (bshuf_loop_total B (skipn n src) draws _ [] Hne) as (out' & buf' & E).
+    assert (Hl : length (apply_code code (firstn n src)) = n).
+    { rewrite <- (Permutation_length (apply_code_perm code (firstn n src))), firstn_length. lia. }
+    destruct (bshuf_fold_total B HB (skipn n src) _ draws [] Hl Hd) as ([[b d] o] & E).
     rewrite E. eexists; split; [reflexivity|].
-    apply bshuf_loop_length in E. destruct E as [E _]. rewrite E, skipn_length. cbn. lia.
+    apply bshuf_fold_perm in E. destruct E as (_ & E & _). rewrite E, skipn_length. cbn. lia.
 Qed.
 
 (* ------------------------------------------------------------------ *)
@@ -171,15 +242,24 @@ Qed.
 Section BatchLoop.
 Context {A : Type} (pre : list A -> list A).
 
+Lemma batch_loop_unfold (bs : Z) it items buf out :
+  batch_loop pre bs (it :: items) buf out =
+  if Z.of_nat (length (buf ++ [it])) =? bs then batch_loop pre bs items [] (out ++ [pre (buf ++ [it])])
+  else batch_loop pre bs items (buf ++ [it]) out.
+Proof.
+  unfold batch_loop. cbn [fold_left]. unfold bl_step at 2 4.
+  destruct (Z.of_nat (length (buf ++ [it])) =? bs); reflexivity.
+Qed.
+
 Lemma batch_loop_spec (bs : Z) : 1 <= bs -> forall items buf out,
   Z.of_nat (length buf) < bs ->
   exists fulls buf', batch_loop pre bs items buf out = (out ++ map pre fulls, buf') /\
     buf ++ items = concat fulls ++ buf' /\
     Forall (fun c => length c = Z.to_nat bs) fulls /\ Z.of_nat (length buf') < bs.
 Proof.
-  intros Hbs. induction items as [|it items IH]; intros buf out Hb; cbn [batch_loop].
+  intros Hbs. induction items as [|it items IH]; intros buf out Hb.
   - exists [], buf. cbn. rewrite !app_nil_r. auto.
-  - destruct (Z.of_nat (length (buf ++ [it])) =? bs) eqn:E.
+  - rewrite batch_loop_unfold. destruct (Z.of_nat (length (buf ++ [it])) =? bs) eqn:E.
     + apply Z.eqb_eq in E.
       destruct (IH [] (out ++ [pre (buf ++ [it])])) as (fulls & buf' & H1 & H2 & H3 & H4); [cbn; lia|].
       exists ((buf ++ [it]) :: fulls), buf'. split; [|split; [|split]].
@@ -514,39 +594,51 @@ Qed.
 
 (* ---- buffered_shuffle_batch_client_datasets ---- *)
 
-Lemma gen_items_consistent p q (ds : list (cds A)) : forallb (meta_ok p q) ds = true ->
-  gen_items (Some p) (Some q) ds = (all_rows ds, false).
+Lemma gi_fold_consistent p q (ds : list (cds A)) : forall items, forallb (meta_ok p q) ds = true ->
+  gi_fold (Some p) (Some q) items ds = (items ++ all_rows ds, false).
 Proof.
-  induction ds as [|d ds IH]; cbn [gen_items forallb]; intros H; [reflexivity|].
-  apply andb_true_iff in H. destruct H as [Hd H]. destruct (check_ok p q d Hd) as [-> ->].
-  rewrite (IH H). reflexivity.
+  induction ds as [|d ds IH]; intros items H; cbn [gi_fold forallb] in *.
+  - unfold all_rows. cbn. now rewrite app_nil_r.
+  - apply andb_true_iff in H. destruct H as [Hd H]. unfold gi_step. destruct (check_ok p q d Hd) as [-> ->].
+    rewrite (IH _ H). unfold all_rows. cbn [map concat]. now rewrite app_assoc.
 Qed.
 
-Lemma gen_items_mismatch p q (ds : list (cds A)) : forallb (meta_ok p q) ds = false ->
-  exists items, gen_items (Some p) (Some q) ds = (items, true).
+Lemma gi_fold_mismatch p q (ds : list (cds A)) : forall items, forallb (meta_ok p q) ds = false ->
+  exists items', gi_fold (Some p) (Some q) items ds = (items', true).
 Proof.
-  induction ds as [|d ds IH]; cbn [gen_items forallb]; intros H; [discriminate|].
-  destruct (meta_ok p q d) eqn:Ed.
-  - destruct (check_ok p q d Ed) as [-> ->]. cbn in H. destruct (IH H) as (items & ->). eauto.
+  induction ds as [|d ds IH]; intros items H; cbn [gi_fold forallb] in *; [discriminate|].
+  unfold gi_step. destruct (meta_ok p q d) eqn:Ed.
+  - destruct (check_ok p q d Ed) as [-> ->]. cbn in H. apply IH. exact H.
   - destruct (check_bad p q d Ed) as [->|[-> ->]]; eauto.
 Qed.
 
+Lemma gen_items_consistent (ds : list (cds A)) : consistentb ds = true -> gen_items ds = (all_rows ds, false).
+Proof.
+  destruct ds as [|d0 rest]; [reflexivity|]. cbn [consistentb]. intros H.
+  unfold gen_items. cbn [gi_fold gi_step check_pre check_feat app].
+  rewrite (gi_fold_consistent _ _ rest _ H). reflexivity.
+Qed.
+
+Lemma gen_items_mismatch (ds : list (cds A)) : consistentb ds = false -> exists items, gen_items ds = (items, true).
+Proof.
+  destruct ds as [|d0 rest]; [discriminate|]. cbn [consistentb]. intros H.
+  unfold gen_items. cbn [gi_fold gi_step check_pre check_feat app].
+  apply gi_fold_mismatch. exact H.
+Qed.
+
 Lemma shuffle_batch_exactly_once (bs B : Z) code draws (ds : list (cds A)) :
-  1 <= bs -> 1 <= B -> consistentb ds = true ->
+  1 <= bs -> 1 <= B -> draws_ok B draws -> consistentb ds = true ->
   exists out, buffered_shuffle_batch_client_datasets (map f) bs B code draws ds = Some (out, false) /\
     Permutation (concat out) (map f (all_rows ds)) /\
     Forall (fun b => (1 <= length b <= Z.to_nat bs)%nat) out /\
     (forall pre' b post, out = pre' ++ b :: post -> post <> [] -> length b = Z.to_nat bs).
 Proof.
-  intros Hbs HB Hc. unfold buffered_shuffle_batch_client_datasets.
+  intros Hbs HB Hdr Hc. unfold buffered_shuffle_batch_client_datasets.
   destruct ds as [|d0 rest].
   { exists []. split; [reflexivity|]. split; [reflexivity|]. split; [constructor|].
     intros [|? ?] ? ? E; discriminate. }
-  cbn [consistentb] in Hc.
-  assert (Hg : gen_items None None (d0 :: rest) = (all_rows (d0 :: rest), false)).
-  { cbn [gen_items check_pre check_feat]. rewrite (gen_items_consistent _ _ rest Hc). reflexivity. }
-  rewrite Hg.
-  destruct (buffered_shuffle_perm B code draws (all_rows (d0 :: rest)) HB) as (sh & -> & Hperm).
+  rewrite (gen_items_consistent (d0 :: rest) Hc).
+  destruct (buffered_shuffle_perm B code draws (all_rows (d0 :: rest)) HB Hdr) as (sh & -> & Hperm).
   destruct (batch_loop_spec (map f) bs Hbs sh [] []) as (fulls & buf' & H1 & H2 & H3 & H4); [cbn; lia|].
   rewrite H1. cbn [app] in *.
   assert (Hfl : forall c, In c fulls -> length (map f c) = Z.to_nat bs).
@@ -575,14 +667,13 @@ Proof.
 Qed.
 
 Lemma shuffle_batch_mismatch_rejected (bs B : Z) code draws (ds : list (cds A)) :
-  1 <= B -> consistentb ds = false ->
+  1 <= B -> draws_ok B draws -> consistentb ds = false ->
   exists out, buffered_shuffle_batch_client_datasets (map f) bs B code draws ds = Some (out, true).
 Proof.
-  intros HB Hc. unfold buffered_shuffle_batch_client_datasets.
-  destruct ds as [|d0 rest]; [discriminate|]. cbn [consistentb] in Hc.
-  cbn [gen_items check_pre check_feat].
-  destruct (gen_items_mismatch _ _ rest Hc) as (items & ->).
-  destruct (buffered_shuffle_err B code draws (d_rows d0 ++ items) HB) as (sh & -> & _).
+  intros HB Hdr Hc. unfold buffered_shuffle_batch_client_datasets.
+  destruct (gen_items_mismatch ds Hc) as (items & ->).
+  destruct ds as [|d0 rest]; [discriminate|].
+  destruct (buffered_shuffle_err B code draws items HB Hdr) as (sh & -> & _).
   eauto.
 Qed.
 
@@ -725,3 +816,195 @@ Proof.
   all: rewrite gen_full_mask_spec; apply gen_finish_spec.
 Qed.
 End GenTie.
+
+(* ------------------------------------------------------------------ *)
+(* (T) buffered_shuffle, buffered_shuffle_batch_client_datasets, RepeatableIterator and
+   shuffled_clients as translated on this run are the hand-written model                *)
+
+From FV Require Import gen.Gen_federated_data_c15 gen.Gen_in_memory_federated_data_c15
+  gen.Gen_sqlite_federated_data_c15.
+
+Section GenTie2.
+Context {A : Type} (pre : list A -> list A).
+
+Lemma gen_bstep_spec B (st : list A * list Z * list A) i : bshuf_step B st i = bstep B st i.
+Proof. destruct st as [[buf draws] out]. reflexivity. Qed.
+
+(* buffered_shuffle over a source that does not raise, from the translated pieces only *)
+Fixpoint gen_bshuf_fold (B : Z) (rest : list A) (st : list A * list Z * list A) : option (list A * list Z * list A) :=
+  match rest with
+  | [] => Some st
+  | i :: rest' => match bshuf_step B st i with None => None | Some st' => gen_bshuf_fold B rest' st' end
+  end.
+
+Definition gen_buffered_shuffle (B : Z) (code : list nat) (draws : list Z) (src : list A) : sres A :=
+  let '(buf, rest) := bshuf_fill B src in
+  match gen_bshuf_fold B rest (bshuf_shuffle code buf, draws, []) with
+  | Some (buf, _, out) => SOk (bshuf_drain buf out)
+  | None => SIndexError
+  end.
+
+Lemma gen_bshuf_fold_spec B : forall rest st, gen_bshuf_fold B rest st = bshuf_fold B rest st.
+Proof.
+  induction rest as [|i rest IH]; intros st; cbn [gen_bshuf_fold bshuf_fold]; [reflexivity|].
+  rewrite gen_bstep_spec. destruct (bstep B st i); auto.
+Qed.
+
+Lemma gen_buffered_shuffle_spec B code draws (src : list A) :
+  gen_buffered_shuffle B code draws src = buffered_shuffle B code draws src false.
+Proof.
+  unfold gen_buffered_shuffle, buffered_shuffle, bshuf_loop, bshuf_fill, bshuf_shuffle, bshuf_drain.
+  cbn [andb]. rewrite gen_bshuf_fold_spec.
+  destruct (bshuf_fold B _ _) as [[[b d] o]|]; reflexivity.
+Qed.
+
+Lemma gen_gi_step_spec pp pf items (d : cds A) : gi_step_gen pp pf items d = gi_step pp pf items d.
+Proof.
+  unfold gi_step_gen, gi_step, check_pre, check_feat.
+  destruct pp as [p|]; destruct pf as [q|]; cbv zeta;
+    repeat match goal with |- context [if ?c then _ else _] => destruct c end; reflexivity.
+Qed.
+
+Lemma gen_bl_step_spec bs st item : bl_step_gen pre bs st item = bl_step pre bs st item.
+Proof. destruct st as [buf out]. unfold bl_step_gen, bl_step. cbv zeta. destruct (_ =? bs); reflexivity. Qed.
+
+(* the whole function from the translated pieces *)
+Fixpoint gen_gi_fold (pp pf : option Z) (items : list A) (ds : list (cds A)) : list A * bool :=
+  match ds with
+  | [] => (items, false)
+  | d :: ds' => match gi_step_gen pp pf items d with
+                | GNext pp' pf' items' => gen_gi_fold pp' pf' items' ds'
+                | GRaise items' => (items', true)
+                end
+  end.
+
+Definition gen_shuffle_batch (bs B : Z) (code : list nat) (draws : list Z) (ds : list (cds A))
+  : option (list (list A) * bool) :=
+  match ds with
+  | [] => Some ([], false)
+  | _ :: _ =>
+    let (items, e) := gen_gi_fold None None [] ds in
+    match buffered_shuffle B code draws items e with
+    | SIndexError => None
+    | SErr shuffled => Some (snd (fold_left (bl_step_gen pre bs) shuffled ([], [])), true)
+    | SOk shuffled =>
+      let '(buf, out) := fold_left (bl_step_gen pre bs) shuffled ([], []) in
+      Some (bl_finish_gen pre bs buf out, false)
+    end
+  end.
+
+Lemma gen_gi_fold_spec : forall ds pp pf items, gen_gi_fold pp pf items ds = gi_fold pp pf items ds.
+Proof.
+  induction ds as [|d ds IH]; intros pp pf items; cbn [gen_gi_fold gi_fold]; [reflexivity|].
+  rewrite gen_gi_step_spec. destruct (gi_step pp pf items d); auto.
+Qed.
+
+Lemma fold_left_ext' {X Y} (f g : X -> Y -> X) : (forall x y, f x y = g x y) ->
+  forall l x, fold_left f l x = fold_left g l x.
+Proof. intros H. induction l as [|y l IH]; intros x; cbn; [reflexivity|]. now rewrite H, IH. Qed.
+
+Lemma gen_shuffle_batch_spec bs B code draws ds :
+  gen_shuffle_batch bs B code draws ds = buffered_shuffle_batch_client_datasets pre bs B code draws ds.
+Proof.
+  unfold gen_shuffle_batch, buffered_shuffle_batch_client_datasets, gen_items, batch_loop.
+  destruct ds as [|d0 rest]; [reflexivity|]. rewrite gen_gi_fold_spec.
+  destruct (gi_fold None None [] (d0 :: rest)) as [items e].
+  destruct (buffered_shuffle B code draws items e) as [sh|sh|]; [| |reflexivity];
+    rewrite (fold_left_ext' _ _ (gen_bl_step_spec bs));
+    destruct (fold_left (bl_step pre bs) sh ([], [])) as [buf out]; cbn [fst snd]; [|reflexivity].
+  unfold bl_finish_gen. destruct buf; reflexivity.
+Qed.
+
+Lemma gen_rit_next_spec (s : rit (A:=A)) : rit_next_gen s = rit_next s.
+Proof. unfold rit_next_gen, rit_next. destruct (r_iter s); destruct (r_first s); reflexivity. Qed.
+
+Lemma gen_rit_init_spec container (base : list A) : rit_init_gen container base = rit_init container base.
+Proof. reflexivity. Qed.
+
+(* one pass of shuffled_clients, in all three classes, is buffered_shuffle over the clients *)
+Lemma gen_shuffled_clients_pass_spec B code draws (clients : list A) :
+  in_memory_shuffled_clients_pass B code draws clients = buffered_shuffle B code draws clients false /\
+  subset_shuffled_clients_pass B code draws clients = buffered_shuffle B code draws clients false /\
+  sqlite_shuffled_clients_pass B code draws clients = buffered_shuffle B code draws clients false.
+Proof. repeat split. Qed.
+End GenTie2.
+
+(* ------------------------------------------------------------------ *)
+(* shuffled_clients: every pass visits every client exactly once        *)
+
+Lemma shuffled_passes_each_once {A} (B : Z) (clients : list A) : 1 <= B -> forall oracles,
+  Forall (fun o => draws_ok B (snd o)) oracles ->
+  exists passes, shuffled_clients_passes B oracles clients = Some passes /\
+    length passes = length oracles /\ Forall (fun p => Permutation clients p) passes.
+Proof.
+  intros HB. induction oracles as [|[code draws] os IH]; intros H; cbn [shuffled_clients_passes].
+  - exists []. repeat split. constructor.
+  - inversion H as [|? ? Hd Hos]; subst. cbn [snd] in Hd.
+    destruct (buffered_shuffle_perm B code draws clients HB Hd) as (pass & -> & P).
+    destruct (IH Hos) as (rest & -> & L & F). exists (pass :: rest). split; [reflexivity|].
+    split; [cbn; now rewrite L|]. constructor; assumption.
+Qed.
+
+Lemma shuffled_passes_nodup {A} (B : Z) (clients : list A) oracles : 1 <= B -> NoDup clients ->
+  Forall (fun o => draws_ok B (snd o)) oracles ->
+  exists passes, shuffled_clients_passes B oracles clients = Some passes /\
+    length passes = length oracles /\
+    Forall (fun p => NoDup p /\ length p = length clients /\ forall x, In x p <-> In x clients) passes.
+Proof.
+  intros HB Hnd H. destruct (shuffled_passes_each_once B clients HB oracles H) as (passes & E & L & F).
+  exists passes. split; [exact E|]. split; [exact L|].
+  eapply Forall_impl; [|exact F]. cbn. intros p P. split; [|split].
+  - eapply Permutation_NoDup; eassumption.
+  - symmetry. apply Permutation_length. exact P.
+  - intros x. split; intros Hx; [apply Permutation_sym in P|]; eapply Permutation_in; eassumption.
+Qed.
+
+(* ------------------------------------------------------------------ *)
+(* the infinite training stream: what has been emitted after any prefix *)
+
+(* consuming more of the source only appends to what was already yielded *)
+Lemma bshuf_fold_app {A} (B : Z) : forall (r1 r2 : list A) st,
+  bshuf_fold B (r1 ++ r2) st = match bshuf_fold B r1 st with Some st' => bshuf_fold B r2 st' | None => None end.
+Proof.
+  induction r1 as [|i r1 IH]; intros r2 st; cbn [app bshuf_fold]; [reflexivity|].
+  destruct (bstep B st i); [apply IH|reflexivity].
+Qed.
+
+Lemma bshuf_fold_out_prefix {A} (B : Z) : forall (rest : list A) buf draws out buf' draws' out',
+  bshuf_fold B rest (buf, draws, out) = Some (buf', draws', out') -> exists more, out' = out ++ more.
+Proof.
+  induction rest as [|i rest IH]; intros buf draws out buf' draws' out' H; cbn [bshuf_fold] in H.
+  - injection H as <- <- <-. exists []. now rewrite app_nil_r.
+  - destruct (bstep B (buf, draws, out) i) as [[[b1 d1] o1]|] eqn:E; [|discriminate].
+    apply bstep_spec in E. destruct E as (r & t & -> & -> & -> & _ & _).
+    apply IH in H. destruct H as (more & ->). exists (r :: more). now rewrite <- app_assoc.
+Qed.
+
+(* after the first B + k items of ANY (possibly infinite) item stream: exactly k items were
+   yielded, B are buffered, together they are a permutation of the consumed prefix -- nothing
+   lost, nothing duplicated, nothing foreign; and what was yielded never changes afterwards *)
+Lemma stream_prefix_exact {A} (B : Z) code draws (prefix more : list A) : 1 <= B -> draws_ok B draws ->
+  (Z.to_nat B <= length prefix)%nat ->
+  let n := Z.to_nat B in
+  exists out buf, bshuf_loop B (skipn n prefix) draws (apply_code code (firstn n prefix)) [] = Some (out, buf) /\
+    Permutation prefix (out ++ buf) /\ length out = (length prefix - n)%nat /\ length buf = n /\
+    (forall out2 buf2, bshuf_loop B (skipn n (prefix ++ more)) draws (apply_code code (firstn n (prefix ++ more))) []
+                       = Some (out2, buf2) -> exists later, out2 = out ++ later).
+Proof.
+  intros HB Hd Hlen n. unfold bshuf_loop.
+  assert (Hl : length (apply_code code (firstn n prefix)) = n).
+  { rewrite <- (Permutation_length (apply_code_perm code (firstn n prefix))), firstn_length. lia. }
+  destruct (bshuf_fold_total B HB (skipn n prefix) _ draws [] Hl Hd) as ([[b d] o] & E).
+  rewrite E. exists o, b. split; [reflexivity|].
+  pose proof (bshuf_fold_perm B _ _ _ _ _ _ _ E) as (P & L1 & L2). cbn [app length] in P, L1.
+  split; [|split; [|split]].
+  - etransitivity; [|exact P]. rewrite <- (firstn_skipn n prefix) at 1.
+    apply Permutation_app_tail. apply apply_code_perm.
+  - rewrite L1, skipn_length. reflexivity.
+  - rewrite L2. exact Hl.
+  - intros out2 buf2. rewrite firstn_app, skipn_app.
+    replace (n - length prefix)%nat with 0%nat by lia. cbn [firstn skipn]. rewrite app_nil_r.
+    rewrite bshuf_fold_app, E.
+    destruct (bshuf_fold B more (b, d, o)) as [[[b2 d2] o2]|] eqn:E2; [|discriminate].
+    intros H. injection H as <- <-. eapply bshuf_fold_out_prefix. exact E2.
+Qed.
